@@ -506,7 +506,7 @@ def kdiff(res, lean, impl_bin, lines, oracle=None, classify=None, unspecified=No
                 res.nontrivial.add(c)
         mo_pre = (model_out[idx] if idx < len(model_out) else 'MISSING') if model_out is not None else None
         def bad(o):
-            if oracle and oracle(line, o): return True
+            if oracle and safe_oracle(oracle, line, o): return True
             if mo_pre is not None and not mo_pre.startswith('unspecified') and not (unspecified and unspecified(line, mo_pre)) and mo_pre != (canon(o) if canon else o): return True
             return False
         if retry and bad(io):
@@ -518,7 +518,7 @@ def kdiff(res, lean, impl_bin, lines, oracle=None, classify=None, unspecified=No
                 if not bad(o2):
                     res.count(tag + 'flaky-retried'); io = o2; break
         if oracle:
-            d = oracle(line, io)
+            d = safe_oracle(oracle, line, io)
             if d:
                 f = {'kind': 'oracle', 'case': line, 'detail': d, 'impl': io[:500]}
                 if isinstance(d, tuple):
@@ -546,6 +546,13 @@ def corpus_lines(prop):
         return []
     return [l.strip() for l in open(p) if l.strip() and not l.startswith('#')]
 
+
+def safe_oracle(oracle, line, out):
+    """an oracle that cannot interpret what the implementation printed has found a violation, not crashed the check"""
+    try:
+        return oracle(line, out)
+    except Exception as e:
+        return ('uninterpretable', 'the implementation\'s answer could not be interpreted by the oracle (%s: %s): %s' % (type(e).__name__, e, out[:200]))
 
 def standard_run(prop, tier, modules, theorems, gen, oracle, classify, rule, assumptions,
                  driver=('drv_main', None), unspecified=None, extra=None, extra_cov=None, canon=None, retry=0):
@@ -583,6 +590,6 @@ def standard_replay(prop, path, oracle, driver=('drv_main', None)):
     if not case:
         print('no concrete input in replay file; no longer checks:', obj.get('no_longer_checks')); return 1
     out = run_lines(drv, [case])[0]
-    d = oracle(case, out)
+    d = safe_oracle(oracle, case, out)
     print('case:', case); print('impl:', out); print('oracle:', d or 'holds')
     return 1 if d else 0
